@@ -205,4 +205,6 @@ func (a *stats) add(b stats) {
 	a.settleFail += b.settleFail
 	a.endsClosedEarly += b.endsClosedEarly
 	a.filterDelayed += b.filterDelayed
+	a.nilItems += b.nilItems
+	a.bufCells += b.bufCells
 }
